@@ -259,6 +259,30 @@ Proof.
     unfold find_dev. rewrite Sd. exact Fd0.
 Qed.
 
+(* ... and the server's table of devices changes at that driver's entry only *)
+Lemma driver_operation_devs s c dn e d o :
+  one_client s c dn -> cl_in_ctl c = [] -> cl_in_blob c = [] ->
+  dget cd_name dn (cl_mirror c) <> None ->
+  find_dev s e = Some d -> d_name d = dn -> e <> cl_ctl c -> e <> cl_blob c ->
+  Forall (fun m => exists vn, about dn vn m) (pubs (snd (step d o))) ->
+  sy_devs (sstep s (SDrv e o)) = sy_devs (set_dev s e (fst (step d o))).
+Proof.
+  intros O I1 I2 Hk Fd Hn He1 He2 Hab. cbn [sstep]. rewrite Fd. destruct (step d o) as [d' tr] eqn:Es. cbn [fst snd] in *.
+  change (publishes tr) with (pubs tr).
+  set (s0 := set_dev s e d').
+  assert (O0 : one_client s0 c dn) by (destruct O; constructor; assumption).
+  destruct (cascade_dev_msgs (pred FUEL) (pubs tr) s0 c dn e O0 Hab He1 He2) as [A B].
+  change (S (pred FUEL)) with FUEL in A, B.
+  destruct (enq_all_inboxes (pubs tr) c) as (Ic & Ib & Im & In_ & Ictl & Iblob). rewrite I1 in Ic. rewrite I2 in Ib. cbn [app] in Ic, Ib.
+  set (s1 := fold_left (fun s m => cascade FUEL s m (Some e)) (pubs tr) s0) in *.
+  assert (Cls1 : sy_cls s1 = [enq_all c (pubs tr)]) by (destruct B; assumption).
+  assert (Sd : sy_devs s1 = sy_devs s0) by (rewrite A; destruct (pubs tr); reflexivity).
+  change (S (pred FUEL)) with FUEL.
+  destruct (settle_one (pred FUEL) s1 (enq_all c (pubs tr)) dn Cls1 ltac:(rewrite In_; destruct O; assumption) ltac:(rewrite Im; exact Hk)
+              ltac:(rewrite Ic; apply forall_map_wire, forall_filter, Hab) ltac:(rewrite Ib; apply forall_map_wire, forall_filter, Hab)) as [R|(E1 & E2 & R)];
+    change (S (pred FUEL)) with FUEL in R; rewrite R; [cbn [sy_devs]|]; exact Sd.
+Qed.
+
 (* ---------- the connected network client stays in sync (operations that publish no BLOB update) ---------- *)
 (* the client's mirror is the normalisation (what the wire does to empty texts) of a mirror in sync with the device *)
 Definition net_synced (mi : mirror) (d : dev) : Prop :=
